@@ -1,3 +1,198 @@
 import B6.Driver.Common
-/-! Driver for C38 — stub (the check for this property is not built yet). -/
-def main : IO Unit := B6.Driver.run { σ := Unit, init := (), step := fun s _ _ => (s, .bad) }
+import B6.Model.FeatureHeap
+/-!
+Driver for C38.  State = the heap model's `State` (a world + caller-held feature values over a store of
+backing arrays) and the observable state the implementation reported after the previous line.
+
+Every op line is answered by the implementation with its COMPLETE observable state
+  `<status> | <world entries> | <caller values>`      status = ok | err | panic
+  entries are joined by ` ; ` (`-` when there are none); world entries are sorted by key, caller values are
+  in index order.  A feature is rendered `<g|a|r|c>:<id> t[k=v …]` followed by, per kind,
+  ` i[(id id) - ()] p[P1 -]` (area: path-id lists, `-` = nil; polygons, `-` = nil),
+  ` m[id/role …]` (relation), ` k[…] v[…] s=0|1` (collection).
+
+ops
+  `reset`            a new empty world, no caller values (answer `ok | - | -`)
+  `new <generic|area|relation|collection> <id> <n>`
+  `clone <i>`        vars.push(vars[i].Clone())
+  `merge <i> <j>`    vars[i].MergeFrom(vars[j])
+  `add <i>`          world.AddFeature(vars[i])            (status err = rejected by validation)
+  `wtag <kind> <id> k=v` / `wrm <kind> <id> k`             world.AddTag / world.RemoveTag
+  `mut <i> <mutator>` with mutator one of
+     `setid <id>` `settags [k=v …]` `addtag k=v` `settag k=v` `rmtag k` `rmtags [k …]` `rmall`
+     `setpathids <i> [id …]` `setpathid <i> <j> <id>` `setpoly <i> <P|->`
+     `setmember <i> <id>/<role>` `appmember <id>/<role>` `setkey <i> <k>` `setval <i> <v>` `appkv <k> <v>` `sort`
+
+Verdict.  The property predicate is evaluated on the implementation's own answers (previous line vs this
+line): everything except the operation's target — the other caller values, the (other) world entries — is
+literally unchanged (`isolation`, also when the call panics); a clone is observably equal to its original
+(`clone`); after an accepted `add` the world returns what was passed (`store`); a rejected `add` changes nothing.  Then the
+whole answer is compared with the model's (`diff`).
+-/
+open B6.Driver B6.Model.FeatureHeap
+namespace B6.Driver.C38
+
+def kindLetter : Kind → String
+  | .generic => "g" | .area => "a" | .relation => "r" | .collection => "c"
+
+def parseKind : String → Option Kind
+  | "generic" => some .generic | "area" => some .area
+  | "relation" => some .relation | "collection" => some .collection
+  | _ => none
+
+def renderPair (sep : String) : Cell → String
+  | .pair a b => a ++ sep ++ b
+  | .scalar s => "?" ++ s
+
+def renderScalar : Cell → String
+  | .scalar s => if s == "" then "-" else s
+  | .pair a b => "?" ++ a ++ "," ++ b
+
+def renderIds (l : List (Option (List Cell))) : String :=
+  renderList (l.map fun
+    | none => "-"
+    | some cs => "(" ++ " ".intercalate (cs.map renderScalar) ++ ")")
+
+def renderView (v : View) : String :=
+  let head := kindLetter v.kind ++ ":" ++ v.id ++ " t" ++ renderList (v.tags.map (renderPair "="))
+  match v.kind with
+  | .generic => head
+  | .area => head ++ " i" ++ renderIds v.ids ++ " p" ++ renderList (v.polygons.map renderScalar)
+  | .relation => head ++ " m" ++ renderList (v.members.map (renderPair "/"))
+  | .collection => head ++ " k" ++ renderList (v.keys.map renderScalar) ++ " v"
+      ++ renderList (v.values.map renderScalar) ++ " s=" ++ (if v.sorted then "1" else "0")
+
+def renderFeat (st : Store) (f : Feat) : String :=
+  match view st f with
+  | some v => renderView v
+  | none => "dangling"
+
+def insertSorted (x : String) : List String → List String
+  | [] => [x]
+  | y :: ys => if x < y then x :: y :: ys else y :: insertSorted x ys
+
+def sortStrings (l : List String) : List String := l.foldr insertSorted []
+
+def joinEntries (l : List String) : String := if l.isEmpty then "-" else " ; ".intercalate l
+
+def splitEntries (s : String) : List String := if s == "-" then [] else s.splitOn " ; "
+
+def renderState (s : State) : String × String :=
+  (joinEntries (sortStrings (s.world.map (renderFeat s.st))), joinEntries (s.vars.map (renderFeat s.st)))
+
+/-- the key `<k>:<id>` of a rendered feature -/
+def entryKey (e : String) : String := (words e).headD ""
+
+def parseKV (s : String) : Option (String × String) :=
+  match s.splitOn "=" with
+  | [k, v] => some (k, v)
+  | _ => none
+
+def parseMember (s : String) : Option (String × String) :=
+  match s.splitOn "/" with
+  | [a, b] => some (a, b)
+  | _ => none
+
+def parsePoly (s : String) : String := if s == "-" then "" else s
+
+def parseMut (ws : List String) : Option Mut :=
+  match ws with
+  | ["setid", id] => some (.setID id)
+  | "settags" :: rest => (parseBracket (" ".intercalate rest)).bind fun l => (l.mapM parseKV).map .setTags
+  | ["addtag", kv] => (parseKV kv).map fun p => .addTag p.1 p.2
+  | ["settag", kv] => (parseKV kv).map fun p => .setTag p.1 p.2
+  | ["rmtag", k] => some (.rmTag k)
+  | "rmtags" :: rest => (parseBracket (" ".intercalate rest)).map .rmTags
+  | ["rmall"] => some .rmAllTags
+  | "setpathids" :: i :: rest => (parseBracket (" ".intercalate rest)).bind fun l => i.toNat?.map fun i => .setPathIDs i l
+  | ["setpathid", i, j, id] => i.toNat?.bind fun i => j.toNat?.map fun j => .setPathID i j id
+  | ["setpoly", i, p] => i.toNat?.map fun i => .setPolygon i (parsePoly p)
+  | ["setmember", i, m] => i.toNat?.bind fun i => (parseMember m).map fun p => .setMember i p.1 p.2
+  | ["appmember", m] => (parseMember m).map fun p => .appendMember p.1 p.2
+  | ["setkey", i, k] => i.toNat?.map fun i => .setKey i k
+  | ["setval", i, v] => i.toNat?.map fun i => .setValue i v
+  | ["appkv", k, v] => some (.appendKV k v)
+  | ["sort"] => some .sort
+  | _ => none
+
+def parseOp (op : String) : Option Op :=
+  match words op with
+  | ["new", kind, id, n] => (parseKind kind).bind fun k => n.toNat?.map fun n => .new k id n
+  | ["clone", i] => i.toNat?.map .clone
+  | ["merge", i, j] => i.toNat?.bind fun i => j.toNat?.map fun j => .merge i j
+  | ["add", i] => i.toNat?.map .add
+  | ["wtag", kind, id, kv] => (parseKind kind).bind fun k => (parseKV kv).map fun p => .wtag k id p.1 p.2
+  | ["wrm", kind, id, k] => (parseKind kind).map fun kd => .wrm kd id k
+  | "mut" :: i :: rest => i.toNat?.bind fun i => (parseMut rest).map fun m => .upd i m
+  | _ => none
+
+structure St where
+  model : State := {}
+  world : List String := []
+  vars : List String := []
+
+/-- all entries of `l` except position `i` -/
+def dropAt (l : List String) (i : Nat) : List String := l.take i ++ l.drop (i + 1)
+
+def others (key : String) (l : List String) : List String := l.filter (entryKey · != key)
+
+/-- the property predicate on two consecutive answers of the implementation; `none` = holds -/
+def predicate (st : St) (op : Op) (status : String) (world vars : List String) : Option String :=
+  let same := world == st.world && vars == st.vars
+  let panicked := status == "panic"
+  match op with
+  | .new _ _ _ =>
+    if panicked then (if same then none else some "isolation") else
+    if world == st.world && vars.take st.vars.length == st.vars && vars.length == st.vars.length + 1
+    then none else some "isolation"
+  | .clone i =>
+    if panicked then (if same then none else some "isolation") else
+    if !(world == st.world && vars.take st.vars.length == st.vars && vars.length == st.vars.length + 1)
+    then some "isolation"
+    else if vars.getLast? == st.vars[i]? then none else some "clone"
+  | .upd i _ | .merge i _ =>
+    if world == st.world && vars.length == st.vars.length && dropAt vars i == dropAt st.vars i
+    then none else some "isolation"
+  | .add i =>
+    match st.vars[i]? with
+    | none => if same then none else some "isolation"
+    | some v =>
+      let key := entryKey v
+      if status == "err" || panicked then (if same then none else some "rejected-add-changed-state")
+      else if !(vars == st.vars && others key world == others key st.world) then some "isolation"
+      else if world.filter (entryKey · == key) == [v] then none else some "store"
+  | .wtag k id _ _ | .wrm k id _ =>
+    let key := kindLetter k ++ ":" ++ id
+    if vars == st.vars && others key world == others key st.world then none else some "isolation"
+
+def step (st : St) (op impl : String) : St × Verdict :=
+  if op == "reset" then ({}, if impl == "ok | - | -" then .ok else .bad) else
+  match impl.splitOn " | ", parseOp op with
+  | [status, w, v], some o =>
+    let world := splitEntries w
+    let vars := splitEntries v
+    let next (m : State) : St := { model := m, world := world, vars := vars }
+    match predicate st o status world vars with
+    | some clause => (next st.model, .propfail clause)
+    | none =>
+      match B6.Model.FeatureHeap.step st.model o with
+      | none =>
+        -- the model says the call panics (index out of range, wrong kind) before it has written anything
+        let r := renderState st.model
+        let mine := "panic | " ++ r.1 ++ " | " ++ r.2
+        (next st.model, if impl == mine then .ok else .diff mine)
+      | some m =>
+        if status == "err" then
+          -- rejected by the world's validation, which the model does not contain; nothing changed (checked above)
+          (next st.model, match o with | .add _ => .ok | _ => .bad)
+        else
+          let r := renderState m
+          let mine := "ok | " ++ r.1 ++ " | " ++ r.2
+          (next m, if impl == mine then .ok else .diff mine)
+  | _, _ => (st, .bad)
+
+def family : Family := { σ := St, init := {}, step := step }
+
+end B6.Driver.C38
+
+def main : IO Unit := B6.Driver.run B6.Driver.C38.family
